@@ -15,6 +15,14 @@ HW_... due to failed self-test" warning (captured by wrapping
 libcperciva_warnx) is a violation: the accelerated path computed a different
 function on the library's own self-test vector.
 
+Far-offset AES-CTR streams (`F` lines): the stream is moved to block 2^e - d
+(e = 8, 16, ..., 56) with the hook crypto_aesctr_verif_seek that
+crypto/crypto_aesctr.c provides under LIBCPERCIVA_VERIF, then bulk, sub-block
+and 0-length calls cross block 2^e; generator shared with vlib/c02.py
+(far_stream), reference = refaes at the absolute block index.  Every variant
+runs them, so the AES-NI bulk counter arithmetic and the portable byte-wise
+carry are compared where the carry reaches the upper counter bytes.
+
 "Self-test fails" variants (driver flag --fail-selftest=<impl>,...): the CPU
 reports the feature, the library is linked unchanged, but the library's own
 start-up self-test of that implementation fails (the --wrap wrapper of the
@@ -605,11 +613,12 @@ def far_witness(c, t, vname):
     """Where a far-offset stream leaves the model (absolute block number)."""
     f = c['line'].split()
     start = int(f[5])
+    label = c.get('far') or next(('near 2^%d' % e for e in FAR_EXPS if start <= (1 << e)), '?')
     fd = next((i for i in range(0, min(len(t[0]), len(t[1])), 2) if t[0][i:i + 2] != t[1][i:i + 2]),
               -2) // 2
     return ('variant %s: stream moved to block %d (%s) with crypto_aesctr_verif_seek, calls %s: '
             'output differs from the AES-CTR model at data offset %d = block %d: library ...%s, '
-            'model ...%s' % (vname, start, c.get('far', '?'), f[7][:80], fd, start + fd // 16,
+            'model ...%s' % (vname, start, label, f[7][:80], fd, start + fd // 16,
                              t[0][2 * fd:2 * fd + 32], t[1][2 * fd:2 * fd + 32]))
 
 
